@@ -5,7 +5,7 @@ From WP Require Import Base.Prelude Base.Decimal Model.Cbor Model.Http Model.Url
 From WP Require Import Spec.Cbor Spec.Bundle.
 From WP Require Import Proofs.BaseLemmas Proofs.CborHead Proofs.CborMap Proofs.CborDecode Proofs.CborUtf8
   Proofs.Variants Proofs.BundleWriteBasics Proofs.BundleWriteSpec Proofs.BundleWriteSig
-  Proofs.BundleWriteForm Proofs.BundleWriteWF Proofs.BundleRows
+  Proofs.BundleWriteForm Proofs.BundleWriteWF Proofs.BundleRoundtripRows
   Proofs.BundleRoundtripResp Proofs.BundleRoundtripMeta Proofs.BundleRoundtripRead.
 Open Scope N_scope.
 
